@@ -138,11 +138,12 @@ Variable P : prims.
 Hypothesis L : crypto_laws P.
 
 Lemma scrypt_decrypt_complete cc sp pw dk :
+  scrypt_alloc_ok (sp_n sp) (sp_r sp) = true ->
   content_dk P (KScrypt sp) pw = Some dk -> length (cc_iv cc) = 16%nat ->
   bytes_eqb (hash P (skipn 16 dk ++ cc_ciphertext cc)) (cc_mac cc) = true ->
   scrypt_decrypt P cc sp pw = Ok (aes_ctr P (firstn 16 dk) (cc_iv cc) (cc_ciphertext cc)).
 Proof.
-  unfold content_dk, dklen_of, cost_params_ok, prf_ok. rewrite andb_true_r.
+  intros Hal. unfold content_dk, dklen_of, cost_params_ok, prf_ok. rewrite andb_true_r.
   destruct (sp_dklen sp =? 32)%Z eqn:E1; cbn [andb]; [|discriminate].
   destruct (scrypt_pre (sp_n sp) (sp_r sp) (sp_p sp) 32) eqn:Pre; [|discriminate].
   intros H Liv Hmac. injection H as <-.
@@ -151,7 +152,7 @@ Proof.
   unfold scrypt_decrypt, derivedKeyLen. rewrite E1. change (32 =? 32)%Z with true. cbn [negb].
   replace (sp_r sp <=? 0)%Z with false by (symmetry; apply Z.leb_gt; exact Hr).
   replace (sp_p sp <=? 0)%Z with false by (symmetry; apply Z.leb_gt; exact Hp).
-  cbn [orb]. unfold call_scrypt. rewrite D, K. cbn [negb bind gs_data].
+  cbn [orb]. unfold call_scrypt. rewrite D, K, Hal. cbn [negb bind gs_data].
   apply (decryptCommon_spec P); [|exact Liv|exact Hmac].
   rewrite (cl_scrypt_len P L) by exact Pre. reflexivity.
 Qed.
@@ -179,11 +180,14 @@ Qed.
 (* a document whose content decodes (both typed passes and the metadata map) and conforms to V3 for the
    password is read, to the V3 key of that content *)
 Theorem content_is_read t pw c md k :
+  cost_capped P t = true ->
   decode_content P t = Some c -> unmarshal_metadata P t = Ok md -> content_key P c pw = Some k ->
   exists w, read_wallet_tree P t pw = Ok w /\ PrivateKey w = k /\
             c = (w_core w, w_crypto w, w_kdfparams w).
 Proof.
-  destruct c as [[cf cc] kp].
+  destruct c as [[cf cc] kp]. intros Hcap Hd0.
+  assert (Hal : kdf_cost_capped kp = true) by (unfold cost_capped in Hcap; rewrite Hd0 in Hcap; exact Hcap).
+  clear Hcap. revert Hd0.
   unfold decode_content, decode_common, decode_scrypt, decode_pbkdf2, read_wallet_tree.
   destruct (unmarshal_wallet P step_crypto_only zero_cc t) as [[cf0 cc0]| |] eqn:H1; try discriminate.
   intros Hd Hm Hk. rewrite Hm. cbn [bind].
@@ -214,7 +218,7 @@ Proof.
                        w_crypto := fst ck; w_kdfparams := KScrypt (snd ck); w_private := key |}))
       by (destruct t; [contradiction|reflexivity..]).
     rewrite R, H2. cbn [bind fst snd].
-    rewrite (scrypt_decrypt_complete cc sp pw dk Hdk Liv Hmac). cbn [bind].
+    rewrite (scrypt_decrypt_complete cc sp pw dk Hal Hdk Liv Hmac). cbn [bind].
     eexists. split; [reflexivity|]. split; reflexivity.
   - destruct (bytes_eqb (cc_kdf cc0) kdfTypePbkdf2); [|discriminate].
     destruct (unmarshal_wallet P (step_crypto_with step_pbkdf2_params) (zero_cc, zero_pp) t) as [[cf2 [cc2 pp]]| |] eqn:H2;
@@ -273,12 +277,13 @@ Hypothesis LU : uuid_parse_16 P.
    the Go structs and into the metadata map, as modelled -- and the independent strict specification
    derives k from the canonical V3 document carrying the decoded content. *)
 Theorem read_iff_spec_any (b : bool) t pw k :
+  cost_capped P t = true ->
   (exists w, read_wallet_tree P t pw = Ok w /\ PrivateKey w = k /\
              (b = true -> cc_cipher (w_crypto w) = cipherAES128ctr)) <->
   (exists c md, decode_content P t = Some c /\ unmarshal_metadata P t = Ok md /\
                 v3_decrypt_gen b P (content_doc c) pw = Ok k).
 Proof.
-  split.
+  intros Hcap. split.
   - intros (w & H & <- & Hc). destruct (read_metadata_ok P t pw w H) as (md & Hm).
     exists (w_core w, w_crypto w, w_kdfparams w), md. split; [apply read_content with pw; exact H|]. split; [exact Hm|].
     change (content_doc (w_core w, w_crypto w, w_kdfparams w))
@@ -288,25 +293,26 @@ Proof.
   - intros ([[cf cc] kp] & md & Hd & Hm & Hs).
     unfold content_doc, content_wallet, JSON_tree in Hs.
     destruct (spec_on_marshalled_conv b P pw cf [] cc kp [] k (decode_content_tag P t cf cc kp Hd) Hs) as [Hk Hc].
-    destruct (content_is_read P L t pw _ md k Hd Hm Hk) as (w & R & K & E).
+    destruct (content_is_read P L t pw _ md k Hcap Hd Hm Hk) as (w & R & K & E).
     exists w. split; [exact R|]. split; [exact K|]. injection E as _ -> _. exact Hc.
 Qed.
 
 (* ... and reports an error exactly when no key is derived that way (there is no third outcome) *)
 Theorem read_err_iff_spec_any t pw :
+  cost_capped P t = true ->
   (exists e, read_wallet_tree P t pw = Err e) <->
   (forall c md k, decode_content P t = Some c -> unmarshal_metadata P t = Ok md ->
                   v3_decrypt_gen false P (content_doc c) pw <> Ok k).
 Proof.
-  split.
+  intros Hcap. split.
   - intros (e & R) c md k Hd Hm Hs.
-    destruct (proj2 (read_iff_spec_any false t pw k)) as (w & R' & _); [eauto|]. congruence.
+    destruct (proj2 (read_iff_spec_any false t pw k Hcap)) as (w & R' & _); [eauto|]. congruence.
   - intros H. destruct (read_wallet_tree P t pw) as [w|e|] eqn:R.
-    + exfalso. destruct (proj1 (read_iff_spec_any false t pw (PrivateKey w))) as (c & md & Hd & Hm & Hs).
+    + exfalso. destruct (proj1 (read_iff_spec_any false t pw (PrivateKey w) Hcap)) as (c & md & Hd & Hm & Hs).
       * exists w. split; [exact R|]. split; [reflexivity|discriminate].
       * exact (H c md _ Hd Hm Hs).
     + eauto.
-    + exfalso. revert R. apply read_wallet_tree_total.
+    + exfalso. revert R. apply read_wallet_tree_total. exact Hcap.
 Qed.
 End Exact.
 
@@ -368,7 +374,8 @@ Example read_iff_spec_any_nonvacuous :
   match lenient_doc with
   | Some t =>
       (* not a document of the strict specification *)
-      v3_wellformed t = false /\ v3_decrypt_gen false toy16 t [x70; x77] = Err SInvalid /\
+      v3_wellformed t = false /\ cost_capped toy16 t = true /\
+      v3_decrypt_gen false toy16 t [x70; x77] = Err SInvalid /\
       (* read by the code; the re-marshalled wallet is decrypted by the full standard to the same key *)
       match read_wallet_tree toy16 t [x70; x77] with
       | Ok w => PrivateKey w = [x01; x02; x03] /\ v3_decrypt toy16 (JSON_tree w) [x70; x77] = Ok [x01; x02; x03]
